@@ -28,3 +28,4 @@ import RosuModel.Props.C02FinalUnordered
 import RosuModel.Props.C02FinalCurves
 import RosuModel.Props.C02FinalScroll
 import RosuModel.Props.C02FinalScrollToy
+import RosuModel.Props.C02FinalScrollExact
